@@ -498,6 +498,17 @@ func famC12(c *hx.Ctx) []*scenario {
 		for k := 1; k <= 6; k++ {
 			add(&scenario{name: fmt.Sprintf("will%d-fs%d", wi, k), failSend: map[int]map[int]bool{1: {k: true}}, steps: mixed})
 		}
+		// the publication of the will itself fails (any error; "queue full" = the dying client's own queue): still one attempt only
+		for _, qf := range []bool{false, true} {
+			for npub := 0; npub <= 2; npub++ {
+				steps := []step{in(connectPkt(true, w))}
+				for i := 1; i <= npub; i++ {
+					steps = append(steps, in(pub(i, 1, false)))
+				}
+				steps = append(steps, step{kind: "inerr"})
+				add(&scenario{name: fmt.Sprintf("will%d-willpub-fails-after%d-qf%v", wi, npub, qf), failCall: map[string]int{"pub": npub + 1}, queueFull: qf, steps: steps})
+			}
+		}
 	}
 	return out
 }
